@@ -59,6 +59,8 @@ type timerObj struct {
 	elem    types.Type
 	stopped bool
 	owner   *value
+	when    int64 // logical expiry time (ns)
+	period  int64 // tickers
 }
 
 type scheduler struct {
@@ -80,6 +82,10 @@ type scheduler struct {
 	wg          map[*value]int
 	once        map[*value]int
 	switches    int
+	// now is the logical clock (ns): it advances when a timer fires (to that
+	// timer's expiry time); only the armed timer(s) with the earliest expiry
+	// can fire, so durations matter in their relative order.
+	now int64
 }
 
 var schedTrace = os.Getenv("VERIF_SCHED_TRACE") != ""
@@ -156,11 +162,34 @@ func (s *scheduler) armedTimers() []*timerObj {
 	}
 	var r []*timerObj
 	for _, t := range s.timers {
-		if t.armed {
-			r = append(r, t)
+		if !t.armed {
+			continue
 		}
+		if len(r) > 0 && t.when > r[0].when {
+			continue
+		}
+		if len(r) > 0 && t.when < r[0].when {
+			r = r[:0]
+		}
+		r = append(r, t)
 	}
 	return r
+}
+
+// arm sets the timer to expire d nanoseconds from now (d < 0 counts as 0).
+func (s *scheduler) arm(t *timerObj, d int64) {
+	if d < 0 {
+		d = 0
+	}
+	t.armed = true
+	t.when = s.now + d
+}
+
+func durationOf(v value) int64 {
+	if t, ok := v.(*Term); ok && t.IsConst() {
+		return t.Int()
+	}
+	return 0 // unknown duration: may expire at once
 }
 
 // switchTo hands the token to next and waits until it comes back.
@@ -594,8 +623,13 @@ func (s *scheduler) newTimer(elem types.Type, armed bool, ticker bool, fn value)
 func (s *scheduler) fire(t *timerObj) {
 	s.fires++
 	s.tr("fire timer %d", t.id)
+	if t.when > s.now {
+		s.now = t.when
+	}
 	if !t.ticker {
 		t.armed = false
+	} else {
+		t.when = s.now + t.period
 	}
 	if t.fn != nil {
 		// AfterFunc: runs the function in its own goroutine
